@@ -600,7 +600,7 @@ func runC16(c *h.Ctx) {
 	}
 	// random decimal
 	r := c.Rand("c16")
-	nd := c.PerShard(c.N(60000, 1500000))
+	nd := c.PerShard(c.N(600000, 6000000))
 	for i := 0; i < nd; i++ {
 		var t string
 		switch r.IntN(3) {
@@ -663,5 +663,5 @@ func runC16(c *h.Ctx) {
 		}
 	}
 	// keyvalue ids
-	runKeyvalue(c, c.PerShard(c.N(6000, 200000)))
+	runKeyvalue(c, c.PerShard(c.N(40000, 400000)))
 }
